@@ -91,6 +91,14 @@ func hxl(l [][]byte) string {
 	return strings.Join(s, ",")
 }
 
+// cpStr copies a string's bytes for certain. ([]byte(s) may share the string's memory when the
+// compiler sees the slice is only read - which would make a snapshot follow an aliasing bug.)
+func cpStr(s string) []byte {
+	b := make([]byte, len(s))
+	copy(b, s)
+	return b
+}
+
 func errOr(st string) string {
 	if st == "ok" {
 		return "err"
@@ -200,7 +208,7 @@ func newRW(in []byte) *rwConn                      { return &rwConn{in: bytes.Ne
 // hsPieces lists what a Handshake's results read as: protocol, then per extension its name
 // and its parameters (key, value ...).
 func hsPieces(hs *ws.Handshake) [][]byte {
-	out := [][]byte{[]byte(hs.Protocol)}
+	out := [][]byte{cpStr(hs.Protocol)}
 	for _, e := range hs.Extensions {
 		out = append(out, append([]byte(nil), e.Name...))
 		e.Parameters.ForEach(func(k, v []byte) bool {
@@ -497,7 +505,7 @@ func c17Close(c *ctx, path string, client bool, payload []byte) {
 		c.emit("C17R %s %d %s %s -> - - %s", path, b2i(client), hx(payload), b2s(poolSanitize), errOr(st))
 		return
 	}
-	before := [][]byte{[]byte(cerr.Reason)}
+	before := [][]byte{cpStr(cerr.Reason)}
 	var after [][]byte
 	st = guarded(func() {
 		c17Poison()
@@ -506,7 +514,7 @@ func c17Close(c *ctx, path string, client bool, payload []byte) {
 			other = other[:125]
 		}
 		run(other)
-		after = [][]byte{[]byte(cerr.Reason)}
+		after = [][]byte{cpStr(cerr.Reason)}
 	})
 	c.emit("C17R %s %d %s %s -> %s %s %s", path, b2i(client), hx(payload), b2s(poolSanitize), hxl(before), hxl(after), st)
 }
@@ -562,12 +570,12 @@ func c17X(c *ctx, payload []byte) {
 	p := pbytes.GetLen(len(payload))
 	copy(p, payload)
 	_, reason := ws.ParseCloseFrameDataUnsafe(p)
-	before := [][]byte{[]byte(strings.Clone(reason))}
+	before := [][]byte{cpStr(reason)}
 	pbytes.Put(p)
 	var after [][]byte
 	st := guarded(func() {
 		c17Poison()
-		after = [][]byte{[]byte(strings.Clone(reason))}
+		after = [][]byte{cpStr(reason)}
 	})
 	c.emit("C17X %s %s -> %s %s %s", b2s(poolSanitize), hx(payload), hxl(before), hxl(after), st)
 }
